@@ -31,6 +31,8 @@ RULE = ('differential: generated programs (32 shapes incl. threads, generators, 
         'variant), never on a with-header line and never while the entry frame is in its own except/finally body; '
         'non-trivial = at least one action was attempted / a fault was injected; distinct by canonical case')
 ASSUMPTIONS = ['programs do not observe addresses, time, the recursion limit or the trace function',
+               'object lifetimes are observed at frame exit only: inside a frame whose locals a tracer has read, CPython '
+               '<= 3.12 keeps the frame.f_locals snapshot (and so a value removed with del) alive until the frame ends',
                'a fault inside the handler\'s own last-resort except block is a double fault and out of scope',
                'fault enumeration uses single-threaded hosts (the per-thread pending store is keyed by thread id)']
 REQUIRE = {'programs_compared': 150, 'actions_attempted': 1500, 'raw_runs': 100, 'thread_end_probes': 60,
@@ -49,7 +51,7 @@ def plan(tier, seed):
 
 
 # ------------------------------------------------------------------ tracepoint set generator
-WATCH_POOL = ['n', 'v', 'i', 'x', 'total', 'bad_str', 'bad_attr', 'bad_eq', 'exit_str', 'box', 'raw', 'self', 'log',
+WATCH_POOL = ['n', 'v', 'i', 'x', 'total', 'held', 'pair', 'temp', 'registry', 'bad_str', 'bad_attr', 'bad_eq', 'exit_str', 'box', 'raw', 'self', 'log',
               'str(bad_str)', 'len(bad_attr)', 'bad_attr.anything', 'bad_eq == 1', 'str(exit_str)', '1/0', 'nope_zz',
               'STATE', 'tally', '[x for x in range(3)]', 'locals()', 'globals()["STATE"]', '__import__("os").sep',
               'HostError("w")', '(lambda: 1)()', 'sorted(STATE)']
